@@ -104,7 +104,10 @@ pub(crate) fn sanitize_namespace(key: &str) -> String {
         })
         .collect();
 
-    if sanitized.trim_matches('_').is_empty() {
+    // "." and ".." survive the character mapping but are not directory names: pushed onto the
+    // data dir they denote the data dir itself / its parent. Give them the hashed fallback name
+    // like keys that sanitize to nothing.
+    if sanitized.trim_matches('_').is_empty() || sanitized == "." || sanitized == ".." {
         sanitized = format!("ns_{:x}", checksum64(key.as_bytes()));
     }
     sanitized
